@@ -34,6 +34,9 @@ CHECKS = {
  "C17": dict(cat="exploration", tech="exhaustive enumeration (backoff lattice, all retry outcome/cancellation sequences and breaker sequences in virtual-time bubbles against reference models) + deviation-bounded exploration of election scenarios for the acquisition rounds", ref="DESIGN §5 C17",
    note="Backoff lattice restricted to Jitter in [0,1], Multiplier>=1, MaxBackoff<=100y; retry sequences <=5, breaker sequences of length 6; rounds observed in 2-3 instance scenarios with <= d deviations. The random source is owned through the overlay shim.",
    text="CalculateBackoff within the jitter band and non-negative for all lattice points and attempts up to MaxInt; RetryWithBackoff's invocation instants and result equal the reference timeline for every outcome sequence, MaxAttempts, breaker and cancellation point; CircuitBreaker equals the reference FSM on every sequence; every acquisition round in every explored execution waits exactly 10ms+r*90ms, makes <=4 attempts, and waits the computed backoff."),
+ "C12": dict(cat="model_checking", tech="reference-model conformance: every health-result sequence up to a length bound executed on the real election in virtual time and compared tick by tick with a reference counter", ref="DESIGN §5 C12",
+   note="Sequences over {ok,bad,slow} of length <=6 (quick) / <=7 (thorough) x thresholds {0,1,2,3,4}; one instance; K1 timing; store fault-free; a slow check returns false at its deadline.",
+   text="The reference model (consecutive-unhealthy counter of the current term) and the implementation agree on every tick of every sequence: demotion by the health mechanism exactly when the count reaches the threshold, never earlier, OnDemote ran, each Check context expires within 100ms, the instance continues as follower and is re-elected; counts restart on healthy results and on new terms (runs continue over up to three terms)."),
 }
 NA_DEFAULT = "check not built yet in this round (planned in DESIGN.md §9a); not claimed until it runs alarm-free"
 
